@@ -5926,7 +5926,8 @@ def _get_worktree_update_config(
     Returns:
       Tuple of (honor_filemode, validate_path_element, symlink_fn)
     """
-    config = repo.get_config()
+    # (the whole stack, not only the repository's own file: see reset_index)
+    config = repo.get_config_stack()
     honor_filemode = config.get_boolean(b"core", b"filemode", os.name != "nt")
 
     # core.protectNTFS defaults to True on all platforms (matching Git's
